@@ -342,6 +342,8 @@ class LazyObject(types.Resolvable[_T]):
     return hash(self.id)
 
   def __eq__(self, other: Self) -> bool:
+    if not isinstance(other, LazyObject):
+      return NotImplemented
     if self.id == other.id:
       return True
     if not self._cache_result and not other._cache_result:
